@@ -3,21 +3,24 @@ import XmppModel.Model.Negotiate
 /-!
 Driver for C01 / C04 (one negotiation model).  Line (fields after the property id):
 
-    run <st0> <cfg> <script> <picks> <fault>
+    run <st0> <ws> <cfg> <script> <picks> <fault>
 
 * `st0`     initial `SessionState`, decimal
+* `ws`      `0`/`1` WebSocket framing (ignored by the model: only the syntax of headers differs)
 * `cfg`     `;`-joined features `ns.loc:nec:proh:negotiable:listReq:listErr:parseErr:mask:restart:negErr`
             (the last six fields are the scripted behaviour of the callbacks), `-` = none
 * `script`  `;`-joined peer items: `H1`/`H0` header good/bad, `A<i,i,…>` features list with
             items `ns.loc.req` or `J` (character data), `Ens.loc.iq.payload` another element,
             `X` stream error, `T` a token that is not a start element; `-` = empty
 * `picks`   `,`-joined names `ns.loc` of the `Negotiate` calls observed on the initiating side
-* `fault`   `-` none, `k` the k-th I/O operation fails, `k+` every operation from the k-th on
+* `fault`   `-` none, `k` the k-th I/O operation fails, `k+` every operation from the k-th on,
+            `Cn` the context is cancelled when `n` events have happened (counting the model's
+            events that are printed)
 
 Answer: `<events> <outcome> <state>`; events `,`-joined in order (`-` if none): `Wh` header
 written, `R` a read that delivered an item, `Re` read at end of input, `R!`/`Wh!`/`Wl!` failed
 operation, `Lns.loc@st` List, `Pns.loc@st` Parse, `Nns.loc@st` Negotiate, `Wl[a+b]` features
-list written; outcome `done`, `fail:<class>`, `stuck`, `fuel`.
+list written, `Wp` unfinished list flushed after a failed `List`; outcome `done`, `fail:<class>`, `stuck`, `fuel`.
 -/
 namespace XmppModel.Driver.C01
 open XmppModel XmppModel.Negotiate
@@ -40,11 +43,11 @@ def parseSt (s : String) : Option St := do
   let n ← s.toNat?
   if n < 256 then pure (BitVec.ofNat 8 n) else none
 
-def parseBeh (s : String) : Option Beh :=
+def parseBeh (idx : Nat) (s : String) : Option Beh :=
   match s.splitOn ":" with
   | [n, nec, proh, ng, lr, le, pe, m, rs, ne] => do
     let name ← parseName n
-    pure { f := ⟨name, ← parseSt nec, ← parseSt proh, ← parseBool ng⟩, listReq := ← parseBool lr,
+    pure { f := ⟨idx, name, ← parseSt nec, ← parseSt proh, ← parseBool ng⟩, listReq := ← parseBool lr,
            listErr := ← parseBool le, parseErr := ← parseBool pe, mask := ← parseSt m,
            restart := ← parseBool rs, negErr := ← parseBool ne }
   | _ => none
@@ -70,19 +73,10 @@ def parsePeer (s : String) : Option Peer :=
     | _ => none
   else none
 
-def parseFault (s : String) : Option (Nat → Bool) :=
-  if s == "-" then some (fun _ => false)
-  else if s.endsWith "+" then do
-    let k ← ((s.dropEnd 1).toString).toNat?
-    pure (fun i => decide (k ≤ i))
-  else do
-    let k ← s.toNat?
-    pure (fun i => i == k)
-
 /-- the scripted callbacks: behaviour is looked up by feature name (first match, like the
 configuration the harness builds); an unknown feature never reaches a callback -/
-def mkOracle (bs : List Beh) (fault : Nat → Bool) : Oracle :=
-  let look (f : Feature) : Option Beh := bs.find? (fun b => b.f == f)
+def mkOracle (bs : List Beh) (fault : (Nat → Bool) × (List Ev → Bool)) : Oracle :=
+  let look (f : Feature) : Option Beh := bs.find? (fun b => b.f.id == f.id)
   { neg := fun _ f _ => match look f with
       | some b => ⟨b.mask, b.restart, b.negErr⟩
       | none => ⟨0, false, true⟩
@@ -92,7 +86,8 @@ def mkOracle (bs : List Beh) (fault : Nat → Bool) : Oracle :=
     parseErr := fun _ f _ => match look f with
       | some b => b.parseErr
       | none => true
-    fault := fault }
+    fault := fault.1
+    cancel := fault.2 }
 
 def showName (n : FName) : String := s!"{n.ns}.{n.loc}"
 
@@ -105,10 +100,27 @@ def showEv : Ev → Option String
   | .listCall f st _ => some s!"L{showName f.name}@{st.toNat}"
   | .listOut _ fs true => some ("Wl[" ++ "+".intercalate (fs.map fun f => showName f.name) ++ "]")
   | .listOut _ _ false => some "Wl!"
+  | .listAbort true => some "Wp"
+  | .listAbort false => some "Wp!"
   | .parse f st _ _ => some s!"P{showName f.name}@{st.toNat}"
   | .listIn _ _ => none
   | .neg f st _ _ _ _ => some s!"N{showName f.name}@{st.toNat}"
   | .refuse _ => none
+
+/-- `(fault, cancel)`; `Cn`: the context is cancelled once `n` events have happened -/
+def parseFault (s : String) : Option ((Nat → Bool) × (List Ev → Bool)) :=
+  let none' : Nat → Bool := fun _ => false
+  let nonec : List Ev → Bool := fun _ => false
+  if s == "-" then some (none', nonec)
+  else if s.startsWith "C" then do
+    let k ← ((s.drop 1).toString).toNat?
+    pure (none', fun tr => decide (k ≤ (tr.filterMap showEv).length))
+  else if s.endsWith "+" then do
+    let k ← ((s.dropEnd 1).toString).toNat?
+    pure (fun i => decide (k ≤ i), nonec)
+  else do
+    let k ← s.toNat?
+    pure (fun i => i == k, nonec)
 
 def showCls : ErrCls → String
   | .io => "io" | .cb => "cb" | .policy => "policy" | .streamErr => "streamerr" | .proto => "proto"
@@ -117,6 +129,7 @@ def showOutcome : Pc → String
   | .done => "done"
   | .fail c => "fail:" ++ showCls c
   | .stuck => "stuck"
+  | .crash => "PANIC"
   | _ => "fuel"
 
 /-- `run` that stops stepping once a final control point is reached (final points are
@@ -134,9 +147,9 @@ def fuelFor (C : List Feature) (script : List Peer) (picks : List FName) : Nat :
 
 def handle (args : List String) : Option String :=
   match args with
-  | ["run", st0, cfg, script, picks, fault] => do
+  | ["run", st0, _ws, cfg, script, picks, fault] => do
     let st0 ← parseSt st0
-    let bs ← mapM? parseBeh (splitList cfg ';')
+    let bs ← mapM? (fun (p : String × Nat) => parseBeh p.2 p.1) (splitList cfg ';').zipIdx
     let sc ← mapM? parsePeer (splitList script ';')
     let pk ← mapM? parseName (splitList picks ',')
     let fl ← parseFault fault
